@@ -6,6 +6,7 @@
 -/
 import AnyVecModel.Model.Ops
 import AnyVecModel.Proofs.KernelIter
+import AnyVecModel.Proofs.KernelPtrAt
 namespace AnyVec
 namespace C14
 open World
@@ -164,6 +165,13 @@ theorem cursor_is_the_source (c : Cursor) :
     Gen.Kernel.iter_next_back c.index c.end_ = .ok (.step c.nextBack.1 c.nextBack.2.index c.nextBack.2.end_) ∧
     Gen.Kernel.iter_clone c.index c.end_ = .ok (.made 0 [c.index, c.end_]) :=
   ⟨KernelTie.iter_next_tie c, KernelTie.iter_next_back_tie c, KernelTie.iter_clone_tie c⟩
+
+/-- **source tie**: `Iter::new(ptr, start, end)` stores `index: start`, `end: end` (source of this run): a fresh cursor
+covers exactly `[start, end)`. -/
+theorem iter_new_is_the_source :
+    Gen.Kernel.iter_new_fields =
+      [("any_vec_ptr", "any_vec_ptr"), ("index", "start"), ("end", "end"), ("phantom", "PhantomData")] :=
+  KernelTie.iter_new_tie
 
 end C14
 end AnyVec
